@@ -93,7 +93,38 @@ func newEnv(intervalMs int64) (*env, error) {
 		e.close()
 		return nil, err
 	}
+	if err := e.precreateSchema(); err != nil {
+		e.close()
+		return nil, err
+	}
 	return e, nil
+}
+
+// precreateSchema registers the metric, its tag keys and all fields of the harness schema from
+// this one goroutine before the first row is written. On the first rows of a new metric the
+// metadata worker (GenFieldID) and the index worker (GenTagKeyID) otherwise update the metric's
+// schema concurrently and lose each other's update (fields=[] or tagKeys=[] afterwards; seen
+// here under machine load, it is property C09's finding) — which would make this check's
+// outcome depend on the scheduler. With the schema in place the workers only look ids up, the
+// same situation as after a reopen.
+func (e *env) precreateSchema() error {
+	mdb := e.db.MetaDB()
+	mid, err := mdb.GenMetricID([]byte(nsName), []byte(metricName))
+	if err != nil {
+		return fmt.Errorf("GenMetricID: %v", err)
+	}
+	for _, k := range []string{"k1", "k2"} {
+		if _, err := mdb.GenTagKeyID(mid, []byte(k)); err != nil {
+			return fmt.Errorf("GenTagKeyID: %v", err)
+		}
+	}
+	for _, id := range schemaOrder {
+		d := schema[id]
+		if _, err := mdb.GenFieldID(mid, field.Meta{Name: field.Name(d.name), Type: field.Type(d.ftype)}); err != nil {
+			return fmt.Errorf("GenFieldID %s: %v", d.name, err)
+		}
+	}
+	return nil
 }
 
 func (e *env) open(create bool) error {
@@ -464,4 +495,24 @@ func fmtVal(v float64) string {
 		return strconv.FormatInt(int64(v), 10)
 	}
 	return "nonint(" + strconv.FormatFloat(v, 'g', -1, 64) + ")"
+}
+
+// schemaDump renders the metric's id and schema as the metadata database knows it (diagnostics).
+func (e *env) schemaDump() string {
+	mid, err := e.db.MetaDB().GetMetricID(nsName, metricName)
+	if err != nil {
+		return "metric id: " + err.Error()
+	}
+	sc, err := e.db.MetaDB().GetSchema(mid)
+	if err != nil || sc == nil {
+		return fmt.Sprintf("metric %d schema err %v", mid, err)
+	}
+	var fs, ts []string
+	for _, f := range sc.Fields {
+		fs = append(fs, fmt.Sprintf("%s#%d/%d", f.Name, f.ID, f.Type))
+	}
+	for _, t := range sc.TagKeys {
+		ts = append(ts, fmt.Sprintf("%s#%d", t.Key, t.ID))
+	}
+	return fmt.Sprintf("metric=%d fields=%v tagKeys=%v", mid, fs, ts)
 }
